@@ -31,13 +31,18 @@ def one(sid, prop):
             text=True)
         if r.returncode != 0:
             return sid, prop, 'patch-does-not-apply', ''
-        r = subprocess.run([os.path.join(ROOT, 'check'), prop, 'quick'],
+        # the check that owns the property; if the stored evaluation says
+        # another check is the one that reports this seed, that one
+        m = json.load(open(os.path.join(ROOT, 'seeded', sid, 'meta.json')))
+        by = [k for k, v in m.get('checks', {}).items() if v.get('rc') == 1]
+        use = prop if (not by or prop in by) else by[0]
+        r = subprocess.run([os.path.join(ROOT, 'check'), use, 'quick'],
                            env=dict(os.environ, TAPESCRIPT_REPO=d),
                            capture_output=True, text=True, timeout=3600)
         keys = sorted({ln.split('key=')[1].split(' ')[0]
                        for ln in r.stdout.splitlines()
                        if ln.startswith('VIOLATION') and 'key=' in ln})
-        return sid, prop, r.returncode, ','.join(keys)[:120]
+        return sid, use, r.returncode, ','.join(keys)[:120]
     finally:
         shutil.rmtree(d, ignore_errors=True)
 
